@@ -1,3 +1,4 @@
+import TantivyModel.Proofs.SSTable.Separators
 import TantivyModel.Proofs.SSTable.StoreLocate
 import TantivyModel.Proofs.SSTable.StoreFile
 import TantivyModel.Proofs.SSTable.SearchOrd
@@ -890,6 +891,67 @@ theorem C15_store_locate_ord (gs : List GroupSpec) (hg : GoodStore gs) (ord : Na
 example : (openStore (storeBytes [⟨100, 5, 10, 3, ⟨0, 0, 90⟩, [⟨9, 90, 200⟩], 200⟩])).locateOrd 9 = 1 ∧
     (openStore (storeBytes [⟨100, 5, 10, 3, ⟨0, 0, 90⟩, [⟨9, 90, 200⟩], 200⟩])).locateOrd 8 = 0 ∧
     allOrds [⟨100, 5, 10, 3, ⟨0, 0, 90⟩, [⟨9, 90, 200⟩], 200⟩] = [0, 9] := by decide
+
+/-! ## round 2: FST contract, merged dictionaries -/
+
+/-- the keys `SSTableIndexBuilder::serialize` inserts into `tantivy_fst::MapBuilder` — the
+(shortened) separators of the dictionary built from any sorted map at any block length — are
+strictly increasing, which is what the FST builder requires -/
+theorem C15_separators_strictly_increasing {V} (blockLen : Nat) (m : Assoc V) (hs : SortedMap m) :
+    StrictInc ((build blockLen m).blocks.map (·.sep)) :=
+  build_seps_strictInc blockLen m hs
+
+/-- tantivy-fst as a stated contract (`FstContract`: built from strictly increasing keys;
+`range().ge(k).next()` = first entry with key ≥ k): `locate_with_key` through ANY such FST built
+from the dictionary's separators is the routing of `C15_block_routing`, so every operation theorem
+holds for the fst-backed index -/
+theorem C15_fst_locate {V} (blockLen : Nat) (m : Assoc V) (f : FstIndex) (hf : FstContract f)
+    (hkeys : f.keys = (build blockLen m).blocks.map (·.sep))
+    (hmulti : (build blockLen m).single = false) (k : Key) :
+    f.geFirst k = (build blockLen m).locateKey k :=
+  fst_locate blockLen m f hf hkeys hmulti k
+
+theorem C15_get_map_keys {V} (ks : List Key) (f : Key → V) (k : Key) :
+    SSTable.get (ks.map (fun x => (x, f x))) k = if k ∈ ks then some (f k) else none := by
+  induction ks with
+  | nil => rfl
+  | cons a rest ih =>
+    unfold SSTable.get at ih ⊢
+    rw [List.map_cons, List.find?_cons]
+    by_cases h : a = k
+    · subst h; simp
+    · have : (a == k) = false := by simpa using h
+      simp only [this, Bool.false_eq_true, if_false, ih, List.mem_cons]
+      have hne : ¬ k = a := fun e => h e.symm
+      simp [hne]
+
+/-- merge end to end: the dictionary written from the k-way merge of sorted inputs (any block
+length) answers as the merged map — a key is found iff some input holds it, with the combined
+value; every entry of every input is found at its remapped ordinal; ordinals map back to the
+merged keys -/
+theorem C15_merged_dictionary {V} (comb : List V → V) (ms : List (Assoc V))
+    (hs : ∀ m ∈ ms, SortedMap m) (blockLen : Nat) :
+    (∀ k, (build blockLen (kwayMerge comb ms)).get k
+      = if k ∈ unionKeys (ms.map keys) then some (comb (ms.filterMap (fun m => SSTable.get m k))) else none) ∧
+    (∀ m ∈ ms, ∀ e ∈ m, (build blockLen (kwayMerge comb ms)).termOrd e.1
+      = some (ordOf (keys (mergeSpec comb ms)) e.1)) ∧
+    (∀ o, (build blockLen (kwayMerge comb ms)).ordToTerm o = ordToTerm (mergeSpec comb ms) o) := by
+  obtain ⟨heq, hsorted, _, _⟩ := C15_merge comb ms hs
+  rw [heq]
+  refine ⟨fun k => ?_, fun m hm e he => ?_, fun o => (refine_ordToTerm blockLen _ o).1⟩
+  · rw [refine_get blockLen _ hsorted k]
+    unfold mergeSpec
+    exact C15_get_map_keys _ _ k
+  · rw [refine_termOrd blockLen _ hsorted e.1]
+    have h := (C15_term_ordinal_remap comb ms hs m hm).1
+    unfold ordMap at h
+    obtain ⟨i, hidx⟩ := List.getElem?_of_mem he
+    have := congrArg (fun l => l[i]?) h
+    simp only [List.getElem?_map, hidx, Option.map_some] at this
+    exact Option.some.inj this
+
+example : (build 0 (kwayMerge List.sum [[(([1] : Key), 1), ([3], 3)], [([2], 20), ([3], 30)]])).get [3] = some 33 ∧
+    (build 0 (kwayMerge List.sum [[(([1] : Key), 1), ([3], 3)], [([2], 20), ([3], 30)]])).termOrd [2] = some 1 := by decide
 
 /-! ## insertion order (DESIGN §8, F6) -/
 
